@@ -61,10 +61,15 @@ class PopenFuture(concurrent.futures.Future):
         def run():
             try:
                 self.start_time = time.time()
-                self.process = Popen(self.cmd, stdout=PIPE, stderr=PIPE, text=True)
 
                 # cancel() may have been called before the process existed
                 # (e.g. executor shutdown right after submit), when it had nothing to kill
+                if self._cancel_requested:
+                    return
+
+                self.process = Popen(self.cmd, stdout=PIPE, stderr=PIPE, text=True)
+
+                # same check again, for a cancel() that came while the process was being created
                 if self._cancel_requested:
                     self.cancel()
 
